@@ -200,6 +200,33 @@ def craApply (c12 d A e : Int) : Int := ((e - A % d) % d) * c12 + A
 /-- `operator()` with `REDUCE = false`: `convert(res, e); res -= A; res *= C_12; res += A` -/
 def craApplyNoReduce (c12 A e : Int) : Int := (e - A) * c12 + A
 
+/-! ### ChineseRemainder over a residue domain that does not store elements as their canonical integer
+(`Montgomery<int32_t>`: `x·2^32 mod p`; `GFqDom<int32_t>` and `Modular<Log16>`: discrete logarithms) -/
+
+/-- what the functor uses of its `Domain`: elements are opaque codes, reached only through `init`/`convert`/`sub`/`inv` -/
+structure ResidueDom where
+  d : Int                       -- characteristic
+  init : Int → Int              -- `init(u, Integer)`
+  convert : Int → Int           -- `convert(Integer&, u)`
+  sub : Int → Int → Int         -- `sub(r, a, b)`
+  inv : Int → Int               -- `invin(u)`
+
+/-- constructor: `invin(init(u, M)); convert(C_12, u); C_12 *= M` -/
+def craInitD (D : ResidueDom) (M : Int) : Int := D.convert (D.inv (D.init M)) * M
+/-- `REDUCE = true`: `init(smallA, A); sub(smallM, e, smallA); convert(res, smallM); res *= C_12; res += A` (`e` is a domain element) -/
+def craApplyD (D : ResidueDom) (c12 A e : Int) : Int := D.convert (D.sub e (D.init A)) * c12 + A
+/-- `REDUCE = false`: `convert(res, e); res -= A; res *= C_12; res += A` -/
+def craApplyNoReduceD (D : ResidueDom) (c12 A e : Int) : Int := (D.convert e - A) * c12 + A
+
+/-- the canonical-storage domain (`Modular<T>`): codes are the residues themselves -/
+def canonicalDom (cof : Int → Int → Int) (d : Int) : ResidueDom :=
+  ⟨d, fun x => x % d, fun a => a % d, fun a b => (a - b) % d, fun a => (cof d (a % d)) % d⟩
+
+/-- Montgomery storage with radix `R` (`Rinv·R ≡ 1 mod d`): the code of `x` is `x·R mod d` -/
+def montgomeryDom (cof : Int → Int → Int) (d R Rinv : Int) : ResidueDom :=
+  ⟨d, fun x => (x * R) % d, fun a => (a * Rinv) % d, fun a b => (a - b) % d,
+   fun a => ((cof d ((a * Rinv) % d)) * R) % d⟩
+
 /-! ### Poly1CRT<Field>: coefficient lists, low degree first, over `Z/p` -/
 
 /-- `Poly1Dom::eval`: Horner from the leading coefficient, `axpy(tmp, res, val, P[i])` in the field -/
@@ -270,6 +297,87 @@ def rnsToRing (cof : Int → Int → Int) (s : PolySys) (rs : List Int) : PolySy
   (s', polyRnsToRing s'.p s'.points s'.ck rs)
 def toRns (s : PolySys) (P : List Int) : List Int := polyRingToRns s.p s.points P
 end PolySys
+
+/-! ### RNSsystemFixed<Ints> (givrnsfixed.inl): the table of the constructor, `RnsToRingLeft/Right`, the final Garner step -/
+
+/-- the two last entries `p0, p1` of a level are combined: `prod = p0*p1` goes one level up, and the slot of `p1` is overwritten
+    by `inv(p1, p0, p1) *= p0`, i.e. `(p0^{-1} mod p1) * p0` (`mpz_invert`: the canonical inverse).  Returns (new level, prod). -/
+def fixedPairLast (cof : Int → Int → Int) (lev : List Int) : List Int × Int :=
+  match lev.reverse with
+  | p1 :: p0 :: rest => (rest.reverse ++ [p0, ((cof p1 (p0 % p1)) % p1) * p0], p0 * p1)
+  | _ => (lev, 0)
+
+/-- `for (i = 1; i < _primes.size(); ++i)` after a `push_back` on level 0: `cur` is level `i-1` (already updated), the second argument
+    the levels `i, i+1, …`; `if (s & 1) break;` -/
+def fixedLoop (cof : Int → Int → Int) : List Int → List (List Int) → List (List Int)
+  | cur, [] => [cur]
+  | cur, next :: rest =>
+    if cur.length % 2 = 1 then cur :: next :: rest
+    else (fixedPairLast cof cur).1 :: fixedLoop cof (next ++ [(fixedPairLast cof cur).2]) rest
+
+/-- `if (! (_primes.back().size() & 1))`: the top level became even, a new level is opened -/
+def fixedClose (cof : Int → Int → Int) (levels : List (List Int)) : List (List Int) :=
+  match levels.reverse with
+  | [] => []
+  | top :: below =>
+    if top.length % 2 = 1 then levels
+    else below.reverse ++ [(fixedPairLast cof top).1, [(fixedPairLast cof top).2]]
+
+/-- one iteration of the constructor's loop over `inprimes` -/
+def fixedPush (cof : Int → Int → Int) (levels : List (List Int)) (p : Int) : List (List Int) :=
+  match levels with
+  | [] => []
+  | l0 :: rest => fixedClose cof (fixedLoop cof (l0 ++ [p]) rest)
+
+/-- the table `_primes` after the constructor (`_primes.resize(1)` first) -/
+def fixedBuild (cof : Int → Int → Int) (ps : List Int) : List (List Int) := ps.foldl (fixedPush cof) [[]]
+
+/-- `RnsToRingLeft` (`reduce = true`: ends with `Integer::modin(I, _primes[level][col])`, i.e. `mpz_mod`) and `RnsToRingRight`
+    (`reduce = false`): `u0 = Left(level-1, 2col); I = Right(level-1, 2col+1); I -= u0; I *= _primes[level-1][2col+1]; I += u0` -/
+def fixedRec (tree : List (List Int)) (rs : List Int) (reduce : Bool) : Nat → Nat → Int
+  | 0, col => rs.getD col 0
+  | level + 1, col =>
+    let u0 := fixedRec tree rs true level (2 * col)
+    let u1 := fixedRec tree rs false level (2 * col + 1)
+    let v := (u1 - u0) * ((tree.getD level []).getD (2 * col + 1) 0) + u0
+    if reduce then v % ((tree.getD (level + 1) []).getD col 0) else v
+
+/-- the loops `for (i = _primes.size(); i--;) if (_primes[i].size() & 1) …` of the constructor (`Mods[--numodd] = _primes[i].back()`)
+    and of `RnsToRing` (`RnsToRingLeft(Reds[--ir], rns, i, --is)`): the levels of odd size contribute their last column; the arrays are
+    filled from the end while `i` runs downwards, so index 0 is the lowest odd level.  `i` = index of the first level of `levels`. -/
+def fixedOddFrom : Nat → List (List Int) → List (Nat × Nat)
+  | _, [] => []
+  | i, lev :: rest => (if lev.length % 2 = 1 then [(i, lev.length - 1)] else []) ++ fixedOddFrom (i + 1) rest
+
+def fixedMods (tree : List (List Int)) : List Int :=
+  (fixedOddFrom 0 tree).map (fun ic => (tree.getD ic.1 []).getD ic.2 0)
+
+def fixedReds (tree : List (List Int)) (rs : List Int) : List Int :=
+  (fixedOddFrom 0 tree).map (fun ic => fixedRec tree rs true ic.1 ic.2)
+
+/-- the object: the table and the inner `RNSsystem<Ints, Modular<Ints>>` (`_RNS.setPrimes(Mods)` in the constructor) -/
+structure FixedSys where
+  tree : List (List Int)
+  rns : RnsSys
+  deriving Repr, BEq
+
+namespace FixedSys
+def ofPrimes (cof : Int → Int → Int) (ps : List Int) : FixedSys :=
+  let t := fixedBuild cof ps
+  ⟨t, RnsSys.setPrimes RnsSys.empty (fixedMods t)⟩
+def empty : FixedSys := ⟨[], RnsSys.empty⟩
+/-- copy constructor `_primes(R._primes), _RNS(R._RNS)` and the implicit assignment -/
+def copy (s : FixedSys) : FixedSys := ⟨s.tree, s.rns.copy⟩
+def assign (dst src : FixedSys) : FixedSys := ⟨src.tree, RnsSys.assign dst.rns src.rns⟩
+/-- `RnsToRing`: the reductions of the odd levels, then `_RNS.RnsToRing(I, Reds)` -/
+def rnsToRing (cof : Int → Int → Int) (s : FixedSys) (rs : List Int) : FixedSys × Int :=
+  let r := s.rns.rnsToRing cof (fixedReds s.tree rs)
+  (⟨s.tree, r.1⟩, r.2)
+/-- `size()` returns `_primes.size()`: the number of *levels* of the table -/
+def size (s : FixedSys) : Nat := s.tree.length
+/-- `ith(i)` returns `_primes.front()[i]`: for an odd `i` that has been paired this is the recombination constant, not the modulus -/
+def ith (s : FixedSys) (i : Nat) : Int := (s.tree.getD 0 []).getD i 0
+end FixedSys
 
 /-! ### several objects, interleaved operations (operation lists of any length) -/
 
